@@ -317,7 +317,9 @@ class ISD(model.Document):
     '''
     isd = ISD(doc)
 
-    cache = (_SingleRegionDocumentCache({}, doc, None),) if sig_times is None else sig_times.cache()
+    # a SignificantTimes instance that was not generated by ISD.significant_times() carries no document cache
+
+    cache = sig_times.cache() if sig_times is not None and sig_times.cache() else (_SingleRegionDocumentCache({}, doc, None),)
 
     for cached_doc in cache:
       if cached_doc.content_interval is not None:
